@@ -117,7 +117,7 @@ Definition counter_available (c : counter) (w : waker) : counter * bool :=
 Definition counter_total (c : counter) : N := count c.
 
 (* ---- scripts over one counter: guards are handles, `Clone` clones the Counter (Rc) ---- *)
-Inductive ctr_op := Acquire | DropGuard (g : nat) | Available (w : waker) | Clone.
+Inductive ctr_op := Acquire | DropGuard (g : nat) | Available (w : waker) | Clone | DropClone.   (* DropClone: drop one of the cloned Counter handles (never the last one) *)
 Inductive ctr_ret := CUnit | CInvalid | CAvail (b : bool).
 (* per op: return value, wakers woken during the op, total() read right after the op *)
 Record ctr_obs := CObs { c_ret : ctr_ret; c_wakes : list waker; c_total : N }.
@@ -144,6 +144,9 @@ Definition ctr_step (st : ctr_state) (o : ctr_op) : ctr_state * ctr_obs :=
       (mkCtr c (guards st) (clones st), CObs (CAvail b) [] (counter_total c))
   | Clone =>
       (mkCtr (inner st) (guards st) (S (clones st)), CObs CUnit [] (counter_total (inner st)))
+  | DropClone =>
+      (* a Counter handle is an Rc: dropping one touches neither the count nor the parked waker *)
+      (mkCtr (inner st) (guards st) (Nat.pred (clones st)), CObs CUnit [] (counter_total (inner st)))
   end.
 
 Fixpoint ctr_run_from (st : ctr_state) (s : list ctr_op) : list ctr_obs :=
